@@ -78,7 +78,16 @@ def pair_list(tier):
     out += [[i, (i + 1) % npts, 1] for i in range(npts)]
     if tier == 'thorough':
         out += [[i, i, 0] for i in range(npts)]
+    # second point = first point + a special fractional separation (see SPECIAL)
+    out += [[0, 'near', 0], [1, 'near', 1], [0, 'half', 0], [2, 'half', 1], [1, 'halfneg', 0]]
     return out
+
+
+# special separations in box fractions: 'near' = a few 1e-6 of a box edge from the first point (NOT an image of it: the
+# distance is 1e-6 .. 1e-4 nm); 'half' / 'halfneg' = 6e-6 box fractions short of half a box along the first box vector
+# (>= 3e-6 nm from the tie on a 0.5 nm edge, so one image is the nearer one by more than the tolerance)
+SPECIAL = {'near': np.array([4e-6, -3e-6, 2e-6]), 'half': np.array([0.5 - 6e-6, 0.213, -0.317]),
+           'halfneg': np.array([-0.5 + 6e-6, -0.171, 0.283])}
 
 
 def min_image_reference(sep, edges):
@@ -125,7 +134,7 @@ class C19(Check):
     technique = ('exhaustive enumeration of boxes x point pairs x all lattice shifts x argument kinds x call forms '
                  'on the real Residue.distance_to (real AtomGro records), minimum-image reference by plain loops')
     level_text = ('20 (quick) / 68 (thorough) boxes (orthorhombic edges from {0.5, 1, 2.5, 20} nm, 4 triclinic), '
-                  '10 / 20 point pairs (4 / 5 points) inside the box and far outside, all 343 lattice shifts in [-3,3]^3 on either '
+                  '15 / 25 point pairs (4 / 5 points, plus pairs 1e-6 box fractions apart and 6e-6 short of half a box) inside the box and far outside, all 343 lattice shifts in [-3,3]^3 on either '
                   'argument, 2 / 5 argument-kind combinations, both call forms, both directions, are executed on '
                   'the real code; a coverage statement over that finite space, not a proof for all reals')
     level_note = ('trusted: numpy arithmetic, the plain-loop minimum-image reference (orthorhombic only; the set of '
@@ -184,7 +193,7 @@ class C19(Check):
         ka, kb = case['ka'], case['kb']
         frac = frac_table(seed)
         a0 = frac[i] @ box
-        b_in = frac[j] @ box
+        b_in = (frac[i] + SPECIAL[j]) @ box if isinstance(j, str) else frac[j] @ box
         b0 = b_in + np.array(FAR, float) @ box if far else b_in
         edges = np.diag(box)
         ref = min_image_reference(b_in - a0, edges) if ortho else None
